@@ -56,9 +56,33 @@ def _judge(ctx, cases, prop, origin, max_skip_ratio=None):
                                "origin": origin}, key=clause)
 
 
+def _judge_multi(ctx, cases, prop, origin, max_skip_ratio=None):
+    """Charts with several instrument sections: one real parse per chart, every section judged as if alone."""
+    recs, by_id = [], {}
+    for c in cases:
+        rs = nt.observe_multi(c, [prop])
+        for rec in rs:
+            by_id[rec["id"]] = (c, rec)
+        recs += rs
+        ctx.evaluations += 1
+        ctx.distinct([c["res"], c["tracks"], c.get("tempo")])
+    if cases:
+        c0 = cases[0]
+        ctx.sample({"origin": origin, "case": c0["id"], "res": c0["res"], "sections": [h for h, _ in c0["tracks"]],
+                    "first_section_body": nt.render_body(c0["tracks"][0][1])[:8]})
+    for rid, p, clause in ctx.validate(recs, max_skip_ratio=max_skip_ratio):
+        c, rec = by_id[rid]
+        ctx.violation(clause, {"kind": "nt-multi", "case": c, "text": nt.multi_text(c), "record": rec, "origin": origin},
+                      key=clause)
+
+
 def replay(ctx, obj):
     c = obj["case"]
     c.pop("expect", None)
+    if obj.get("kind") == "nt-multi":
+        c["tracks"] = [(h, [tuple(it) for it in b]) for h, b in c["tracks"]]
+        _judge_multi(ctx, [c], ctx.prop, "replay")
+        return
     _judge(ctx, [c], ctx.prop, "replay")
 
 
@@ -116,4 +140,49 @@ def seeded_tracks(ctx, prop, n, **kw):
         body = nt.random_track(r, ng, res=res, big=big, phrases=r.choice([0, 0, 1, 2, 4, 7]),
                                events=r.choice([0, 0, 1, 3]), **kw)
         cases.append({"id": f"{prop}-s{k}", "res": res, "body": body, "tempo": tempo})
+    return cases
+
+
+def seeded_multi(ctx, prop, n, **kw):
+    """Charts with 2-5 instrument sections whose tick ranges overlap, abut or follow each other: the last note / phrase
+    of one section sits just before, on or after the first note of the next (whatever a section leaves behind - a
+    predecessor note, a phrase cursor, a last tick - must not reach the next one)."""
+    from chartgen import ALL_HEADERS
+    r = rng(prop, "multi")
+    cases = []
+    for k in range(n):
+        res = r.choice([192, 192, 480, 100, 3, 7, r.randrange(1, 2000)])
+        thr = (2 * res + 3) // 6
+        nsec = r.choice([2, 2, 3, 4, 5])
+        style = r.random()
+        if style < 0.35:       # same instrument, several difficulties
+            suffix = r.choice(["Single", "DoubleBass", "Drums", "Keyboard", "GHLGuitar"])
+            hs = [d + suffix for d in r.sample(["Easy", "Medium", "Hard", "Expert"], min(nsec, 4))]
+        elif style < 0.6:      # same difficulty, several instruments
+            d = r.choice(["Easy", "Medium", "Hard", "Expert"])
+            hs = r.sample([h for h in ALL_HEADERS if h.startswith(d)], nsec)
+        else:
+            hs = r.sample(ALL_HEADERS, nsec)
+        tracks = []
+        prev_last = None
+        for h in hs:
+            ng = r.choice([0, 1, 1, 2, 3, 5, 8])
+            if ng == 0:
+                body = [("S", r.randrange(0, 50), r.randrange(0, 50))] if r.random() < 0.5 else []
+            else:
+                body = nt.random_track(r, ng, res=res, phrases=r.choice([0, 1, 2, 4]), events=r.choice([0, 1]), **kw)
+                ticks = [it[1] for it in body if it[0] == "N"]
+                if prev_last is not None and r.random() < 0.7:
+                    # start this section a HOPO-distance after (or on, or before) the previous section's last note
+                    want = max(0, prev_last + r.choice([-thr, -1, 0, 1, thr - 1, thr, thr + 1]))
+                    shift = want - min(ticks)
+                    if min(it[1] for it in body) + shift >= 0:
+                        body = [(it[0], it[1] + shift) + tuple(it[2:]) for it in body]
+                        ticks = [t + shift for t in ticks]
+                prev_last = max(ticks)
+            tracks.append((h, body))
+        tempo = [[0, 120000]]
+        if r.random() < 0.4:
+            tempo.append([r.randrange(1, 20 * res + 2), r.choice([60000, 200000, 1000 * r.randrange(1, 1000)])])
+        cases.append({"id": f"{prop}-m{k}", "res": res, "tracks": tracks, "tempo": tempo})
     return cases
